@@ -37,6 +37,41 @@ def run(ctx):
     from .c20 import protocol_language
     protocol_language(ctx, "R1p")
     U.rule_qsl(ctx, "R8")
+    platform_query_order(ctx, "R9")
+
+
+PLATFORM_ORDER_CELLS = [
+    ("https://www.youtube.com/watch", [("v", "abcdefghijk"), ("rev", "1")]), ("https://www.youtube.com/watch", [("v", "abcdefghijk"), ("tv", "1")]), ("https://www.youtube.com/watch", [("v", "abcdefghijk"), ("list", "PL1")]),
+    ("https://www.youtube.com/watch", [("v", "abcdefghijk"), ("playlist", "PL1")]), ("https://www.youtube.com/watch", [("v", "abcdefghijk"), ("feature", "share"), ("t", "3")]), ("https://m.youtube.com/watch", [("v", "abcdefghijk"), ("nov", "x")]),
+    ("https://www.facebook.com/permalink.php", [("story_fbid", "55"), ("id", "100")]), ("https://www.facebook.com/photo.php", [("fbid", "10"), ("set", "a.1"), ("type", "3")]), ("https://www.facebook.com/profile.php", [("id", "100"), ("sk", "about")]),
+    ("http://a.com/x", [("b", "2"), ("a", "1"), ("c", "")]),
+]
+
+
+def platform_query_order(ctx, rule):
+    ctx.rule(rule, "order of query items under platform_aware=True: normalize_url, interpreted on every permutation of the items of one url per platform route {YouTube watch with a key that ends like 'v' / 'list' (rev, tv, playlist, nov), with a real list, with dropped keys; Facebook permalink / photo / profile; an ordinary site}, gives one result per url (the platform parsers read whole keys, whatever comes first)")
+    import itertools
+    from . import tables as TB
+    repo = ctx.repo
+    nm = repo.mod("normalize_url")
+    site = nm.site(nm.func("normalize_url").node)
+    ctx.fn("ural.youtube.parse_youtube_url", "ural.facebook.parse_facebook_url")
+    n = 0
+    for base, items in PLATFORM_ORDER_CELLS:
+        results = {}
+        try:
+            for perm in itertools.permutations(items):
+                u = base + "?" + "&".join("%s=%s" % kv for kv in perm)
+                results[u] = TB.call_s(repo, "normalize_url", "normalize_url", u, platform_aware=True)
+        except Unknown as e:
+            ctx.undecided(rule, "normalize_url(%r, platform_aware=True): %s" % (base, e))
+            continue
+        n += 1
+        distinct = sorted(set(map(repr, results.values())))
+        ex = sorted(results.items())
+        ctx.ob(rule, "%s?%s" % (base, "&".join(k for k, _ in items)), len(distinct) == 1,
+               "normalize_url(platform_aware=True) gives %d forms for the permutations of one query: %s" % (len(distinct), "; ".join("%s -> %r" % kv for kv in ex[:3])), site, witness=ex[0][0], sample="%s: %d permutations -> %s" % (base, len(results), distinct[0]))
+    ctx.require_instances(rule, n, len(PLATFORM_ORDER_CELLS) - 2, "platform route cells")
 
 
 def reference_languages(ctx, rule, spec):
@@ -173,6 +208,8 @@ def redirect_spellings(ctx, rule):
     for name, refpat, what, w in (
         ("OBVIOUS_REDIRECTS_RE", r"&[aA][mM][pP](?:;|%3[bB])(?:url|next|u)=x", "a redirect key written after '&amp;' is not recognised: '?a=1&amp;url=...' and '?a=1&url=...' get two normalized forms", "http://a.com/?a=1&amp;url=http%3A%2F%2Fb.com"),
         ("REDIRECTION_DOMAINS_RE", r"\.ampproject\.org(?::[0-9]{1,5})?/[cv]/(?:s/)?", "an AMP cache host with an explicit port is not resolved: ':443' changes the normalized form", "https://b-com.cdn.ampproject.org:443/c/s/b.com/x"),
+        ("REDIRECTION_DOMAINS_RE", r"\.[aA][mM][pP][pP][rR][oO][jJ][eE][cC][tT]\.[oO][rR][gG]/[cv]/(?:s/)?|[bB][cC]\.[mM][aA][rR][fF][eE][eE][lL]\.[cC][oO][mM]/|[bB][cC]\.[mM][aA][rR][fF][eE][eE][lL][cC][aA][cC][hH][eE]\.[cC][oO][mM]/amp/",
+         "a cache host written in upper case is not resolved although hosts are case-insensitive (the host is lower-cased only after the resolution step; fingerprint_url, which normalizes a lower-cased copy again, then disagrees with get_fingerprinted_hostname)", "http://B-COM.CDN.AMPPROJECT.ORG/c/s/b.com/x"),
     ):
         rx = repo.const(im, name)
         ctx.rx("ural.infer_redirection." + name)
@@ -181,7 +218,7 @@ def redirect_spellings(ctx, rule):
             cur = A.regex(rx.pattern, rx.flags, "fullmatch", name)
             ref = A.regex(refpat, 0, "fullmatch")
             wit = A.subset(ref, cur)
-            ctx.ob(rule, "%s/spelling-insensitive" % name, wit is None, "%s does not match %r: %s" % (name, wit, what), im.site(repo.const_node(im, name)), witness=w)
+            ctx.ob(rule, "%s/spelling-insensitive%s" % (name, "/host-case" if "[aA]" in refpat and name.startswith("REDIRECTION") else ""), wit is None, "%s does not match %r: %s" % (name, wit, what), im.site(repo.const_node(im, name)), witness=w)
         except Unsupported as e:
             ctx.undecided(rule, "%s: %s" % (name, e))
 
